@@ -135,6 +135,27 @@ def _walk_own(fn):
                 stack.append(c)
 
 
+class PropRef(object):
+    """A property reached through the class (Cls.name): callable as its getter, with .fget / .fset."""
+
+    def __init__(self, interp, cls, attr, fget):
+        self.interp, self.cls, self.attr, self.fget = interp, cls, attr, fget
+
+    @property
+    def fset(self):
+        r = self.cls.lookup(self.attr, want_setter=True)
+        if r is None:
+            return None
+        kind, node, owner = r
+        if kind == 'setter':
+            return self.interp.closure_for(owner.module, node, owner)
+        fset = _kw(node.value, 'fset', 1)
+        return None if fset is None else self.interp.eval(fset, Frame(owner.module))
+
+    def __call__(self, obj):
+        return self.fget(obj)
+
+
 class BoundMethod(object):
     def __init__(self, func, obj):
         self.func, self.obj = func, obj
@@ -254,8 +275,22 @@ class Interp(object):
     def closure_for(self, module, node, owner=None):
         key = (module.name, id(node))
         if key not in self._closures:
-            self._closures[key] = Closure(self, node, module, owner=owner)
+            clo = Closure(self, node, module, owner=owner)
+            self._closures[key] = clo            # (recursive reference from a decorator finds the plain function)
+            self._closures[key] = self.apply_decorators(clo, node, Frame(module))
         return self._closures[key]
+
+    def apply_decorators(self, fn, node, fr):
+        """decorators other than the descriptor ones (those are resolved by the class model) are evaluated and applied"""
+        for d in reversed(getattr(node, 'decorator_list', [])):
+            text = ast.unparse(d)
+            if text in ('property', 'staticmethod', 'classmethod') or text.endswith(('.setter', '.getter')):
+                continue
+            dec = self.eval(d, fr)
+            if not callable(dec):
+                raise self.err('decorator %s is not callable' % text)
+            fn = dec(fn)
+        return fn
 
     def external(self, modname, name, module, local):
         return self.externals(modname, name, module, local)
@@ -312,16 +347,16 @@ class Interp(object):
         if r is None:
             return False, None
         kind, node, owner = r
-        if kind == 'property':
+        if kind in ('property', 'getter'):
             fn = self.closure_for(owner.module, node, owner)
             if via_instance is None:
-                return True, fn
+                return True, PropRef(self, cls, attr, fn)
             return True, fn(via_instance)
         if kind == 'propcall':
             fget = _kw(node.value, 'fget', 0)
             fn = self.eval(fget, Frame(owner.module))
             if via_instance is None:
-                return True, fn
+                return True, PropRef(self, cls, attr, fn)
             return True, fn(via_instance)
         if kind in ('method',):
             fn = self.closure_for(owner.module, node, owner)
@@ -342,13 +377,30 @@ class Interp(object):
             if isinstance(v, Closure) and via_instance is not None and v.owner is not None \
                     and _is_plain_method(v):
                 return True, BoundMethod(v, via_instance)
+            if isinstance(v, property) and via_instance is not None:
+                # a property object built by a call (a factory of properties): the descriptor protocol applies
+                if v.fget is None:
+                    raise InterpRaise('unreadable attribute %s' % attr, 'AttributeError')
+                return True, v.fget(via_instance)
             return True, v
         raise self.err('unknown member kind %s' % kind)
+
+    def _dynamic_property(self, r, attr):
+        """the property object a class attribute evaluates to (name = make_property(..)), else None"""
+        kind, node, owner = r
+        if not isinstance(node, ast.Assign) or not isinstance(node.value, ast.Call):
+            return None
+        v = self.class_attr_value(owner, node, attr)
+        if isinstance(v, tuple) and len(v) == 2 and v[0] is True:
+            v = v[1]
+        return v if isinstance(v, property) else None
 
     def getattr(self, obj, attr):
         if isinstance(obj, Obj):
             r = obj.cls.lookup(attr)
-            if r is not None and r[0] in ('property', 'propcall'):
+            if r is not None and r[0] in ('property', 'propcall', 'getter'):
+                return self.get_class_member(obj.cls, attr, obj)[1]
+            if r is not None and r[0] == 'classattr' and self._dynamic_property(r, attr) is not None:
                 return self.get_class_member(obj.cls, attr, obj)[1]
             if attr in obj.attrs:
                 if self.on_getattr is not None:
@@ -409,8 +461,15 @@ class Interp(object):
                     self.eval(fset, Frame(owner.module))(obj, value)
                     return
             g = obj.cls.lookup(attr)
-            if g is not None and g[0] in ('property', 'propcall'):
+            if g is not None and g[0] in ('property', 'propcall', 'getter'):
                 raise InterpRaise("can't set attribute '%s'" % attr, 'AttributeError')
+            if g is not None and g[0] == 'classattr':
+                dyn = self._dynamic_property(g, attr)
+                if dyn is not None:
+                    if dyn.fset is None:
+                        raise InterpRaise("can't set attribute '%s'" % attr, 'AttributeError')
+                    dyn.fset(obj, value)
+                    return
             if self.on_setattr is not None:
                 self.on_setattr(obj, attr, value)
             obj.attrs[attr] = value
@@ -626,14 +685,25 @@ class Interp(object):
             return
         if T is ast.FunctionDef:
             clo = Closure(self, st, fr.module, parent_frame=fr, owner=None)
-            fr.env[st.name] = clo
+            fr.env[st.name] = self.apply_decorators(clo, st, fr)
             return
         if T is ast.With:
-            for item in st.items:
-                ctx = self.eval(item.context_expr, fr)
-                if item.optional_vars is not None:
-                    self.assign(item.optional_vars, ctx, fr)
-            yield from self.exec_block(st.body, fr)
+            entered = []
+            try:
+                for item in st.items:
+                    ctx = self.eval(item.context_expr, fr)
+                    if isinstance(ctx, Obj):
+                        raise self.err('with statement on an object of the package')
+                    val = ctx
+                    if hasattr(ctx, '__enter__'):
+                        val = ctx.__enter__()
+                        entered.append(ctx)
+                    if item.optional_vars is not None:
+                        self.assign(item.optional_vars, val, fr)
+                yield from self.exec_block(st.body, fr)
+            finally:
+                for ctx in reversed(entered):
+                    ctx.__exit__(None, None, None)
             return
         if T is ast.Raise:
             if st.exc is None:
